@@ -586,16 +586,17 @@ def token_length(buf):
 
 class RecvTrace:
     """hands a Broker its input one whole token at a time (C07: chunking is irrelevant) and records after every token what
-    Banana.handleData's bookkeeping says: (kind 0 OPEN/1 CLOSE/2 ABORT/3 other, number, handleViolation was called,
-    objectCounter, discardCount, len(receiveStack), inOpen)"""
+    Banana.handleData's bookkeeping says: kind (0 OPEN/1 CLOSE/2 ABORT/3 other), number, handleViolation was called,
+    objectCounter, nesting = discardCount + len(receiveStack) - 1 + inOpen, discarding = discardCount > 0"""
 
     def __init__(self, b):
         self.b = b
         self.buf = b""
-        self.rows = []
+        import array
+        self.rows = array.array("q")      # one packed integer per token (invisible to the garbage collector: thorough runs keep
+        self.overflow = False             # millions of them): objectCounter 12 bits | nesting 8 | discarding 1 | number 12 | violation 1 | kind 2
         self.c0 = b.objectCounter
         self.viol = 0
-        self.broken = None
         orig_dr, orig_hv = b.dataReceived, b.handleViolation
 
         def hv(*a, **k):
@@ -614,8 +615,12 @@ class RecvTrace:
                 orig_dr(tok)
                 t = tokenize(tok)[0]
                 kind = {"OPEN": 0, "CLOSE": 1, "ABORT": 2}.get(t[0], 3)
-                self.rows.append((kind, t[1] if kind < 3 else 0, bool(self.viol), b.objectCounter, b.discardCount,
-                                  len(b.receiveStack), bool(b.inOpen), bool(b.disconnected)))
+                num, oc, dc = (t[1] if kind < 3 else 0), b.objectCounter, b.discardCount
+                depth = dc + len(b.receiveStack) - 1 + (1 if b.inOpen else 0)
+                if num >= 4096 or oc >= 4096 or not 0 <= depth < 256:
+                    self.overflow = True
+                    continue
+                self.rows.append(((((oc << 8 | depth) << 1 | (1 if dc else 0)) << 12 | num) << 3) | (4 if self.viol else 0) | kind)
         b.dataReceived = dr
 
 
@@ -717,7 +722,7 @@ def _run_batch(specs, opts):
                counters=dict(caller_sent=cb.openCount, callee_seen=tb.objectCounter, callee_sent=tb.openCount, caller_seen=cb.objectCounter),
                executed=list(EXECUTED), far_executed=list(FAR_EXECUTED), waiting=len(cb.waitingForAnswers), active_local=len(tb.activeLocalCalls), escaped=escaped,
                logged=len(E.logged_errors) - n_err0,
-               recv_trace=dict(callee=(rt_callee.c0, rt_callee.rows), caller=(rt_caller.c0, rt_caller.rows)),
+               recv_trace=dict(callee=(rt_callee.c0, rt_callee.rows, rt_callee.overflow), caller=(rt_caller.c0, rt_caller.rows, rt_caller.overflow)),
                deliveries=dict(queue=[tuple(x) for x in dlog.queue], handled=list(dlog.handled)))
     return out
 
